@@ -14,28 +14,33 @@ open Spg.Generated
 /-- One assignment (function, normalised target, category) is *local* when its effect cannot
 outlive the call that makes it or be seen by another goroutine:
 * `freshfield`: through a local pointer that only ever holds `&T{…}` / `new(T)` of this call;
+* `freshparam`: through a pointer / slice / map parameter of an unexported helper every call of
+  which passes, for that parameter, an object the caller has itself just created;
 * `recvfield`: a field of the pointer receiver itself — harmless exactly when the method is only
   ever called on a private copy, which is `writersOnPrivateCopies` below;
-* the one `recvdeep` target the source has: in `buildCharacterList`, an element of
-  `recv.requiredSets`, the slice that function has itself just built.
+* a field of a `reqSet` (`…:reqSet`), however it is reached: `reqSet` values exist only inside
+  the derived field `requiredSets`, which `buildCharacterList` rebuilds from scratch on every call
+  (`recvfield` writes) in the caller's private copy of the recipe — no `reqSet` is ever shared.
 Everything else — a package-level variable, a variable captured by a function literal, an element
-of a parameter, any other pointer, any other path through the receiver (the caller's own
-`RequireSets`, say) — is not. -/
+of a parameter or of a slice/map receiver (the caller's own `RequireSets`, the caller's tokens),
+any other pointer — is not. -/
 def localWrite (w : String × String × String) : Bool :=
-  w.2.2 == "freshfield" || w.2.2 == "recvfield" ||
-  (w.2.2 == "recvdeep" && w.1 == "(*CharRecipe).buildCharacterList" && w.2.1 == "(recv.requiredSets[]).s")
+  w.2.2 == "freshfield" || w.2.2 == "freshparam" || w.2.2 == "recvfield" ||
+  w.2.2 == "recvdeep:reqSet" || w.2.2 == "paramelem:reqSet" || w.2.2 == "ptrfield:reqSet"
 
 def writesAreLocal : Bool := Facts.sharedWrites.all localWrite
 
 /-- Does a pointer-receiver method assign to (or through) its receiver? -/
-def writesReceiver (method : String) : Bool :=
-  Facts.sharedWrites.any fun w => w.1 == method && (w.2.2 == "recvfield" || w.2.2 == "recvdeep")
+def writesReceiver (method : String) : Bool := Facts.receiverWriters.contains method
 
 /-- Every call of a pointer-receiver method of the package is either a call of a method that
 does not write its receiver, or a call on `self` from a value-receiver method — the callee then
-works on the caller's private copy of the struct. -/
+works on the caller's private copy of the struct — or a call on a variable of the calling
+function itself (`local`: a value declared there, whose address is taken for the call, or a
+pointer that only ever holds objects created there). -/
 def writersOnPrivateCopies : Bool :=
-  Facts.pointerMethodCalls.all fun c => !writesReceiver c.2.2.1 || (c.2.1 == "value" && c.2.2.2 == "self")
+  Facts.pointerMethodCalls.all fun c =>
+    !writesReceiver c.2.2.1 || (c.2.1 == "value" && c.2.2.2 == "self") || c.2.2.2 == "local"
 
 /-- The separator presets: function values closing over constant recipes. -/
 def presetNames : List String :=
